@@ -895,3 +895,74 @@ def run_attr_loop(P, rep, rule="R-ATTRLOOP"):
             rep.viol(rule, site, P.where(fn), "the attribute loop does not recognise %s: that keyword is only accepted at a fixed position (or not at all)" % sorted(missing))
         else:
             rep.ok(rule, site, P.where(fn), "one token loop recognises %s in any order" % sorted(want))
+
+
+# ---------------------------------------------------------------------------------------
+# R-LOOPIDX.fields: what the loop visits and reports
+
+def run_object_pairs(P, rep, rule="R-LOOPIDX.pairs"):
+    """Iterating an object visits `[key, value]`: in get_array's object branch the two elements of the pair are built from
+    field 0 (the key) and field 1 (the value) of the iterator's item, in that order."""
+    from origins import SelfOrigins, backward_slice
+    g = P.fn_by_key("liquid_lib::stdlib::blocks::for_block::get_array")
+    site = "get_array object entries"
+    found = False
+    for c in sorted((c for c in P.fns.values() if c.kind == "closure" and c.root == g.id), key=lambda f: f.id):
+        if c.argc < 2 or not P.local_ty(c, 2).startswith("(kstring::"):
+            continue
+        so = SelfOrigins(P, c, seed={2: (2,)})
+        for b in c.blocks:
+            for st in b["s"]:
+                if st[0] == "a" and st[2]["k"] == "agg" and st[2].get("ak") == "array" and len(st[2]["ops"]) == 2:
+                    found = True
+                    fields = []
+                    for o in st[2]["ops"]:
+                        ol = op_local(o)
+                        locs = (backward_slice(c, ol[0])[0] | {ol[0]}) if ol else set()
+                        fs = set()
+                        for l in locs:
+                            og = so.place_origin([l, []])
+                            if og and len(og) >= 2 and og[0] == 2:
+                                fs.add(og[1])
+                        fields.append(fs)
+                    if fields == [{0}, {1}]:
+                        rep.ok(rule, site, P.where(c, st[3]), "pair = [item.0 (key), item.1 (value)]")
+                    else:
+                        rep.viol(rule, site, P.where(c, st[3]), "the pair handed to the loop is built from item fields %s instead of [key, value]: "
+                                 "`kv[0]` / `kv.first` is no longer the key" % [sorted(x) for x in fields])
+    if not found:
+        rep.viol(rule, site, P.where(g), "no two-element `[key, value]` construction found in the object branch of get_array (not decided)")
+
+
+def run_col_last(P, rep, rule="R-LOOPIDX.col_last"):
+    """TableRowObject::new: `col_last` depends on both the column position and on being the very last cell (`last`): the final cell
+    of a short row closes its row, so it is col_last even when the column count was not reached."""
+    from origins import backward_slice
+    fn = P.fn_by_key("<liquid_lib::stdlib::blocks::for_block::TableRowObject>::new")
+    adt = P.adts.get("liquid_lib::stdlib::blocks::for_block::TableRowObject")
+    site = "TableRowObject::new col_last"
+    if not adt:
+        rep.anchor_missing(rule, "TableRowObject")
+        return
+    names = [f["name"] for f in adt["variants"][0]["fields"]]
+    if "col_last" not in names:
+        rep.anchor_missing(rule, "TableRowObject.col_last")
+        return
+    k = names.index("col_last")
+    for b in fn.blocks:
+        for st in b["s"]:
+            if st[0] == "a" and st[2]["k"] == "agg" and st[2].get("id", "").endswith("TableRowObject"):
+                ol = op_local(st[2]["ops"][k])
+                locs = (backward_slice(fn, ol[0])[0] | {ol[0]}) if ol else set()
+                # parameters: 1 = i, 2 = len, 3 = col, 4 = cols
+                # (`a || b` is control flow in MIR: the data slice of the result shows the operand that is copied, here `last`;
+                # the column comparison is a branch condition and is covered by R-LOOPIDX / F-COLMIN's rule)
+                need = {1: "the cell index", 2: "the number of cells"}
+                missing = [need[p_] for p_ in (1, 2) if p_ not in locs]
+                if missing:
+                    rep.viol(rule, site, P.where(fn, st[3]), "col_last does not depend on %s: the last cell of a short row (or of a table narrower than `cols`) "
+                             "is not reported as the last of its row" % ", ".join(missing))
+                else:
+                    rep.ok(rule, site, P.where(fn, st[3]), "col_last takes `last` (i, len) into account")
+                return
+    rep.viol(rule, site, P.where(fn), "TableRowObject is not built by a struct literal here (not decided)")
